@@ -4,7 +4,7 @@
 From Coq Require Import String.
 From Coq Require Import List NArith ZArith QArith Bool.
 From Flocq Require Import IEEE754.BinarySingleNaN.
-From Cambrian Require Import Base.F64 SourceFacts MetaAdapt Selection Check.OpsCheck.
+From Cambrian Require Import Base.F64 SourceFacts MetaAdapt Selection Termination Check.OpsCheck.
 Import ListNotations.
 
 Definition quad := (Z * Z * Z * Z)%type.
@@ -15,7 +15,8 @@ Inductive meta_obs :=
 | MMut (idx : N) (expl : bool) (inp : quad) (outs : list quad)
 | MSel (idx : N) (pbits : Z) (n : nat) (counts : list N)
 | MBench (idx : N) (prob : nat) (nc : N) (f0 fbest : Z)
-| MInproc (idx : N) (nc budget peak started : N) (ok : bool).
+| MInproc (idx : N) (nc budget peak started : N) (ok : bool)
+| MTerm (idx : N) (crits : list crit) (res : option compiled).
 
 (** ** meta_adapt: what [mutate] can return for SOME factors in [floor, ceil] (necessary
     condition: multiplication and [min] are monotone, the input is non-negative) *)
@@ -98,6 +99,21 @@ Definition judge_meta (o : meta_obs) : string :=
   | MSel idx pbits n counts =>
       "META idx=" ++ N2s idx ++ " acc=" ++ (if sel_acc pbits n counts then "ok" else "rej/selection") ++
       " C14=1 C15=1 C17=" ++ b2s (sel_mon pbits n counts) ++ " END"
+  | MTerm idx crits res =>
+      let oeq {A} (e : A -> A -> bool) (a b : option A) := match a, b with Some x, Some y => e x y | None, None => true | _, _ => false end in
+      let same := match Termination.compile crits, res with
+                  | Some a, Some b => oeq N.eqb (k_num a) (k_num b) && oeq Z.eqb (k_target a) (k_target b) &&
+                                      oeq N.eqb (k_after a) (k_after b) && Bool.eqb (k_signal a) (k_signal b)
+                  | None, None => true
+                  | _, _ => false
+                  end in
+      (* C03: a budget that is listed (once) is the budget that is compiled, whatever else is listed *)
+      let budget_kept := match res with
+                         | Some b => forallb (fun c => match c with KNum n => oeq N.eqb (k_num b) (Some n) | _ => true end) crits
+                         | None => true
+                         end in
+      "META idx=" ++ N2s idx ++ " acc=" ++ (if same then "ok" else "rej/termination") ++
+      " C14=1 C15=1 C17=1 C03=" ++ b2s budget_kept ++ " C04=" ++ b2s same ++ " END"
   | MInproc idx nc budget peak started ok =>
       (* C05, threaded in-process evaluation: never more than nc at once, and nc are reached
          (the budget is a multiple of nc, so every wave can fill); exactly the budget is started *)
